@@ -5,9 +5,9 @@ from .common import OUT, rats_in, RAT_BOUND
 from . import etrace
 
 
-def judge_calls(res, pid, module, traces, workdir=None, sig_of=None, inexact_is_violation=True, monitors=(), what=None, sample=2):
+def judge_calls(res, pid, module, traces, workdir=None, sig_of=None, inexact_is_violation=True, monitors=(), what=None, sample=2, bound=None):
     workdir = workdir or os.path.join(OUT, pid, module)
-    verdicts, stats, byid = etrace.validate(traces, workdir, monitors=list(monitors), module=module,
+    verdicts, stats, byid = etrace.validate(traces, workdir, monitors=list(monitors), module=module, bound=bound,
                                             exact_expected=inexact_is_violation if callable(inexact_is_violation) else
                                             ((lambda t: True) if inexact_is_violation else None))
     res.states += stats["distinct"]
